@@ -264,7 +264,7 @@ def helper_siblings(ctx: Ctx, rule: str) -> None:
                     l = node.left
                     if isinstance(l, ast.NamedExpr):
                         l = l.value
-                    d = dotted(l) or ""
+                    d = dotted(C.inline_locals(f, l)) or dotted(l) or ""
                     if d == "params":
                         return params_none
                     if d == "params.delay":
@@ -273,6 +273,17 @@ def helper_siblings(ctx: Ctx, rule: str) -> None:
                         return next_none
                     if d.endswith("compute_next_execution_time") or any(_mentions(x, "compute_next_execution_time") for x in C.expand_locals(f, l)):
                         return comp_none
+                # truthiness tests of the stored / computed time (`if scheduled:`)
+                if isinstance(node, (ast.Name, ast.Attribute)):
+                    d = dotted(C.inline_locals(f, node)) or ""
+                    if d.endswith("next_execution_time") and not d.endswith("compute_next_execution_time") and next_none is not None:
+                        return not next_none
+                    if d.endswith("compute_next_execution_time"):
+                        return not comp_none
+                    if d == "params" and params_none is not None:
+                        return not params_none
+                    if d == "params.delay" and delay_none is not None:
+                        return not delay_none
                 return None
 
             return {"*wait": fn}
